@@ -603,7 +603,7 @@ impl SliceHeader {
                     sp_for_switch_flag = Some(r.read_bool("sp_for_switch_flag")?);
                 }
                 let slice_qs_delta = r.read_se("slice_qs_delta")?;
-                let qs_y = 26 + pps.pic_init_qs_minus26 + slice_qs_delta;
+                let qs_y = 26 + i64::from(pps.pic_init_qs_minus26) + i64::from(slice_qs_delta);
                 if qs_y < 0 || 51 < qs_y {
                     return Err(SliceHeaderError::InvalidSliceQsDelta(slice_qs_delta));
                 }
